@@ -118,6 +118,27 @@ def call_value(ex, st, frame, f, call_args, dest, ret_bb, by_ref=None):
     return "pushed"
 
 
+def h_fn_call(ex, st, frame, t, nf, args, dty):
+    """<F as FnOnce/FnMut/Fn<(A, ..)>>::call_once / call_mut / call(f, (a, ..)) on a closure VALUE of this crate: run it."""
+    f = args[0]
+    if isinstance(f, Ref):
+        f = ex.read_path(st, f.cell, f.proj)
+    tup = args[1] if len(args) > 1 else None
+    call_args = []
+    if isinstance(tup, Obj):
+        k = 0
+        while (None, k) in tup.fields:
+            call_args.append(tup.fields[(None, k)])
+            k += 1
+    elif tup is not None and not isinstance(tup, Unit):
+        call_args = [tup]
+    try:
+        closure_body(ex, f)
+    except Unsupported:
+        raise Unsupported("call of an unknown function value %r" % (f,))
+    return call_value(ex, st, frame, f, call_args, t.dest, t.targets.get("return"))
+
+
 def eval_pure(ex, st, f, call_args):
     """Evaluate closure `f` on args in a scratch copy of the state; requires a single feasible returning path.
     Returns the result value (terms refer to the same symbols, so it is valid in `st`)."""
@@ -136,7 +157,12 @@ def eval_pure(ex, st, f, call_args):
         else:
             args = [fv] + args
     ex.push_frame(s2, body, args, None, None)
-    outs = [o for o in ex.run(s2) if o.status == "returned"]
+    all_outs = ex.run(s2)
+    bad = [o for o in all_outs if o.status in ("panic", "unreachable")]
+    if bad:
+        # a closure evaluated as a pure function must not be able to panic: silently dropping that path would hide it
+        raise Unsupported("closure %s can panic (%s)" % (body.name[-40:], bad[0].note))
+    outs = [o for o in all_outs if o.status == "returned"]
     if len(outs) != 1:
         raise Unsupported("closure %s is not single-path (%d)" % (body.name[-40:], len(outs)))
     extra = outs[0].pc[len(st.pc):]
@@ -1165,7 +1191,9 @@ def h_checked_mul(ex, st, frame, t, nf, args, dty):
         raise Unsupported("signed checked_mul")
     wide = z3.ZeroExt(w, a.t) * z3.ZeroExt(w, b.t)
     ov = z3.Extract(2 * w - 1, w, wide) != z3.BitVecVal(0, w)
-    return [(none(dty), ov), (some(Sym(a.t * b.t, a.ty), dty), z3.Not(ov))]
+    # the result is the low half of the SAME double-width product term, so that claims stated over that term need no
+    # reasoning about two different multipliers
+    return [(none(dty), ov), (some(Sym(z3.Extract(w - 1, 0, wide), a.ty), dty), z3.Not(ov))]
 
 
 def h_checked_rem(ex, st, frame, t, nf, args, dty):
@@ -1499,6 +1527,7 @@ STD_SUMMARIES = [
     (r"(^|::)(panic_fmt|panic|panic_display|panic_str|unwrap_failed|expect_failed|begin_panic|panic_bounds_check|panic_nounwind|panic_explicit|unreachable_display|assert_failed)$", h_panic),
     (r"^(std::option::)?Option::(as_ref|as_mut)$", h_option_as_ref),
     (r"^(std::option::)?Option::as_deref$", h_option_as_deref),
+    (r"^<impl Fn(Once|Mut)?\(.*\)( -> \S+)? as Fn(Once|Mut)?<.*>>::call(_once|_mut)?$", h_fn_call),
     (r"^(std::vec::)?Vec::into_boxed_slice$", h_identity0),
     (r"^(std::result::)?Result::or_else$", h_result_or_else),
     (r"^(std::option::)?Option::take$", h_option_take),
